@@ -846,7 +846,16 @@ fn answer_inner(line: &str) -> String {
                 },
                 Err(_) => "badjson".to_string(),
             };
-            format!("{} | {}", r1, r2)
+            // the same text decoded as a plain JSON string and handed to FromStr: deserialising a string must succeed
+            // iff parsing it does, with an equal result
+            let r3 = match serde_json::from_str::<String>(s) {
+                Ok(st) => match st.parse::<LanguageIdentifier>() {
+                    Ok(li) => format!("ok {}", render_li(&li)),
+                    Err(_) => "err".to_string(),
+                },
+                Err(_) => "nostr".to_string(),
+            };
+            format!("{} | {} | {}", r1, r2, r3)
         }
         _ => "na".to_string(),
     }
